@@ -13,13 +13,9 @@ Proof. reflexivity. Qed.
 Print Assumptions Store_link_cfg.
 
 (* ---- add ---- *)
-(* AFieldsetsDeclaredForAssociated (fix FC10b) and CRefuseReservedIndexName (fix FC09b) are accepted whether or not
-   the fix is in the tree yet; where they stand is constrained by the order lemmas below *)
-Definition a_optional (s : astep) : bool := match s with AFieldsetsDeclaredForAssociated => true | _ => false end.
-Definition c_optional (s : cstep) : bool := match s with CRefuseReservedIndexName => true | _ => false end.
-
+(* AFieldsetsDeclaredForAssociated (fix FC10b) and CRefuseReservedIndexName (fix FC09b) are mandatory statements *)
 Theorem Store_link_add_steps :
-  filter (fun s => negb (a_optional s)) steps_add = [AModeCheck; AFieldsetsAgainstFiles; AFieldsetsAgainstCached; AComputeHasId; AIdConsistencyCheck;
+  steps_add = [AModeCheck; AFieldsetsAgainstFiles; AFieldsetsDeclaredForAssociated; AFieldsetsAgainstCached; AComputeHasId; AIdConsistencyCheck;
                ARequiredValuesCheck;
                ACounterRead; ACacheInsert; ACounterBump; AIndexableAssign; AFileCreate; AWrite; AStaleSet;
                AReturnSavedIndex].
@@ -50,18 +46,15 @@ Fixpoint count_checks (l : list astep) : nat :=
    insertion — the only mutating step that can itself refuse — comes before the counter is bumped *)
 Theorem Store_link_add_no_state_touched_before_last_check :
   checks_first steps_add false = true /\
-  count_checks (filter (fun s => negb (a_optional s)) steps_add) = 5 /\
+  count_checks steps_add = 6 /\
   exists pre post, steps_add = pre ++ [ACounterRead; ACacheInsert; ACounterBump] ++ post
                    /\ forallb (fun s => negb (a_mutates s)) pre = true
                    /\ post = [AIndexableAssign; AFileCreate; AWrite; AStaleSet; AReturnSavedIndex].
 Proof.
   split; [reflexivity|]. split; [reflexivity|].
-  first [ exists [AModeCheck; AFieldsetsAgainstFiles; AFieldsetsAgainstCached; AComputeHasId; AIdConsistencyCheck;
-                  ARequiredValuesCheck], [AIndexableAssign; AFileCreate; AWrite; AStaleSet; AReturnSavedIndex];
-          repeat split; reflexivity
-        | exists [AModeCheck; AFieldsetsAgainstFiles; AFieldsetsDeclaredForAssociated; AFieldsetsAgainstCached; AComputeHasId;
-                  AIdConsistencyCheck; ARequiredValuesCheck], [AIndexableAssign; AFileCreate; AWrite; AStaleSet; AReturnSavedIndex];
-          repeat split; reflexivity ].
+  exists [AModeCheck; AFieldsetsAgainstFiles; AFieldsetsDeclaredForAssociated; AFieldsetsAgainstCached; AComputeHasId;
+          AIdConsistencyCheck; ARequiredValuesCheck], [AIndexableAssign; AFileCreate; AWrite; AStaleSet; AReturnSavedIndex].
+  repeat split; reflexivity.
 Qed.
 Print Assumptions Store_link_add_no_state_touched_before_last_check.
 
@@ -130,11 +123,11 @@ Print Assumptions Store_link_sync_close_refresh_index.
 
 (* ---- merge ---- *)
 Theorem Store_link_merge_arguments :
-  last steps_check_merge_arguments CAssertInputs = CReturnInputs /\
-  filter (fun s => negb (c_optional s)) steps_check_merge_arguments =
+  steps_check_merge_arguments =
   [CRefuseListAndPattern; CRefusePatternWithoutRange; CExpandPatternFirstToLastInclusive; CAssertInputs;
-   CEveryInputExistsAndIsNc; COutputExtension; COutputMustNotExist; CNames; CRefuseSharedFileNames; CReturnInputs].
-Proof. split; reflexivity. Qed.
+   CEveryInputExistsAndIsNc; COutputExtension; COutputMustNotExist; CNames; CRefuseSharedFileNames;
+   CRefuseReservedIndexName; CReturnInputs].
+Proof. reflexivity. Qed.
 Print Assumptions Store_link_merge_arguments.
 
 Theorem Store_link_merge_steps :
